@@ -1,5 +1,6 @@
 import BHS.Props.C11
 import BHS.Props.SqlShape.Add
+import BHS.Props.NotifierGenC11
 open BHS.Props.C11
 #print axioms C11_events
 #print axioms C11_no_event
@@ -12,3 +13,14 @@ open BHS.Props.C11
 #print axioms C11_fanout_history
 #print axioms C11_notify_site
 #print axioms BHS.Props.SqlShape.add_statements
+#print axioms BHS.Props.NotifierGen.notify_spawns_one_per_channel
+#print axioms BHS.Props.NotifierGen.notify_never_blocks
+#print axioms BHS.Props.NotifierGen.register_channels
+#print axioms BHS.Props.NotifierGen.notify_refines_ingest
+#print axioms BHS.Props.NotifierGen.genIngest_never_blocks
+#print axioms BHS.Props.NotifierGen.ws_publishes_event_json
+#print axioms BHS.Props.NotifierGen.ws_marshal_failure
+#print axioms BHS.Props.NotifierGen.ws_payloads_not_shared
+#print axioms BHS.Props.NotifierGen.header_added_fields
+#print axioms BHS.Props.NotifierGen.genExec_eq
+#print axioms BHS.Props.NotifierGen.Gen_C11_fanout
